@@ -185,6 +185,7 @@ pub fn op_hs_keygen(w: &mut World, ki: usize) {
                     }
                     w.rep.stats.probe("hash-sigs-signed-from-library-aux");
                 }
+                None if w.node.as_ref().unwrap().take_timeout() => w.rep.stats.probe("hash-sigs-timeout"),
                 None => w.violate("C10", "hash-sigs-aux-interop", "aux-layout", "hash-sigs cannot sign with the library-written aux file"),
             }
         }
